@@ -3,7 +3,7 @@
 From Coq Require Import ZArith NArith List Bool Lia Arith.
 From Falcon.lib Require Import PyStr.
 From Falcon.gen Require Import ConstsC01.
-From Falcon.C01 Require Import Model Spec ProofsBase ProofsGen ProofsHead ProofsCorrect ProofsWf.
+From Falcon.C01 Require Import Model Spec ProofsBase ProofsGen ProofsHead ProofsCorrect ProofsWf ProofsCompiles.
 Import ListNotations.
 Close Scope N_scope.
 Open Scope nat_scope.
@@ -117,6 +117,21 @@ Proof.
   intro Hc. rewrite lazy_compile_transparent. apply run_finder_spec; [apply reachable_wf | exact Hc].
 Qed.
 
+Lemma compiles_ok_wf roots : wf roots = true -> compiles_ok roots = true.
+Proof.
+  intro H. unfold compiles_ok. rewrite quoted_now.
+  destruct (wf_compiles cinst cmulti roots H) as [A B]. rewrite A, B. reflexivity.
+Qed.
+
+Theorem find_spec_full ops uri :
+  snd (router_find cinst cmulti literal_src_quoted (run_ops router0 ops) uri)
+  = Ret (dfs (tree_of ops) uri).
+Proof. apply find_spec. apply compiles_ok_wf. apply reachable_wf. Qed.
+
+Theorem find_no_crash ops uri :
+  snd (router_find cinst cmulti literal_src_quoted (run_ops router0 ops) uri) <> Crash.
+Proof. rewrite find_spec_full. discriminate. Qed.
+
 (* a rejected template changes no later lookup: the history with the rejected call removed
    builds the same tree *)
 Theorem rejected_call_invisible ops1 ops2 tpl rid comp e :
@@ -146,12 +161,12 @@ Proof.
   rewrite N.eqb_refl. unfold params_eqb. rewrite params_same_refl. reflexivity.
 Qed.
 
-Theorem oracle_sound cinst cmulti ops uri r :
-  snd (router_find cinst cmulti literal_src_quoted (run_ops cinst cmulti router0 ops) uri) = Ret r ->
-  compiles_ok cinst cmulti (tree_of cinst cmulti ops) = true ->
-  find_oracle cinst cmulti (tree_of cinst cmulti ops) uri r = true.
+Theorem oracle_sound cinst cmulti ops uri :
+  exists r,
+    snd (router_find cinst cmulti literal_src_quoted (run_ops cinst cmulti router0 ops) uri) = Ret r /\
+    find_oracle cinst cmulti (tree_of cinst cmulti ops) uri r = true.
 Proof.
-  intros H Hc. rewrite (find_spec cinst cmulti ops uri Hc) in H. injection H as <-.
+  exists (dfs cinst cmulti (tree_of cinst cmulti ops) uri). split; [apply find_spec_full|].
   unfold find_oracle. apply result_eqb_refl.
 Qed.
 
